@@ -82,17 +82,28 @@ print(json.dumps(meta, indent=1)[:3000])
 if ok:
     dst = "/verif/seeded/%s_%s" % (a.prop, a.k)
     os.makedirs(dst, exist_ok=True)
-    shutil.copy(patch, dst + "/patch.diff")
-    shutil.copy(orig_demo, dst + "/demo.py")
+    def cp(src, dstf):
+        if os.path.abspath(src) != os.path.abspath(dstf):
+            shutil.copy(src, dstf)
+
+    cp(patch, dst + "/patch.diff")
+    cp(orig_demo, dst + "/demo.py")
     notes = os.path.join(a.src, "notes.md")
     if os.path.exists(notes):
-        shutil.copy(notes, dst + "/notes.md")
+        cp(notes, dst + "/notes.md")
         meta["needs_to_manifest"] = open(notes).read()[:1500]
     old = {}
     if os.path.exists(dst + "/meta.json"):
         old = json.load(open(dst + "/meta.json"))
+        hist = old.get("history", [])
         for c, d in old.get("checks", {}).items():
+            if c in meta.get("checks", {}) and d.get("detected") != meta["checks"][c].get("detected"):
+                hist.append({"check": c, "earlier_result": d})
             meta.setdefault("checks", {}).setdefault(c, d)
+        meta["history"] = hist
+        for k in ("suite_passes", "suite_tail"):
+            if k not in meta and k in old:
+                meta[k] = old[k]
     json.dump(meta, open(dst + "/meta.json", "w"), indent=1)
     print("FILED", dst)
 else:
